@@ -251,12 +251,17 @@ func ReadN(sc *vlib.ScriptConn, c net.Conn, n int) (data []byte, blocked bool, e
 // further network input: (n>0) readable bytes / err / blocked.
 func TryRead(sc *vlib.ScriptConn, c net.Conn) (n int, blocked bool, err error) {
 	buf := make([]byte, 4096)
-	op := sc.Start(func() { n, err = c.Read(buf) })
+	var rn int
+	var rerr error
+	op := sc.Start(func() { rn, rerr = c.Read(buf) })
 	fin := sc.Wait(op)
 	if !fin {
+		// end the blocked call before returning so that it cannot draw random bytes later
+		sc.Close()
+		sc.WaitT(op, 10*time.Second)
 		return 0, true, nil
 	}
-	return n, false, err
+	return rn, false, rerr
 }
 
 // ---------------------------------------------------------------- chunkers
